@@ -21,6 +21,11 @@ Decided (necessary structural conditions only; this and C20 are the weakest clai
                Some edge of the checked subtraction only: the rewritten metadata never grows over the first frame (shared with C09)
   C01.cache    reusable scratch buffers and bit recorders are cleared before they are refilled
   C01.md5      (see C08/C09) ; C01.panic  engine B over the writers' entry points
+  C01.front    the three front-ends feed the encoder and the MD5 with the same little-endian data, cut at whole PCM frames
+               (the C08 protocol rules: .front.sib / .front.md5 / .front.trunc)
+  C01.resid    Rice parameters stay strictly below the escape code, also when narrowed to the 4-bit method; both folding
+               sites use a known form of the zig-zag map
+  C01.cast     every narrowing `as` cast in encode / decode / audio / byteorder is shown lossless or audited (castlib)
 Not decided: numerical equality of reconstructed samples; LPC quantisation; Rice parameter choice.
 """
 from rules.common import *
